@@ -267,8 +267,8 @@ def run(tier, replay):
             raise vlib.ToolError("self-test: the harness accepted a corrupted vector: %s" % p.stdout[-1500:])
 
     # ------------------------------------------------------------------ 3a. byte-offset cuts, validated by TLC
-    nseeds, stall_mod = (24, 1) if thorough else (9, 3)
-    p = run_bin(proxy, ["cuts", "300", "32", str(stall_mod), str(nseeds)], timeout=2400)
+    nseeds, stall_mod, nbig = (24, 1, 6) if thorough else (9, 3, 3)   # nbig: 30-90 KB bodies, cut at sampled offsets
+    p = run_bin(proxy, ["cuts", "300", "32", str(stall_mod), str(nseeds), str(nbig)], timeout=2400)
     cuts = parse_jsonl(p.stdout)
     if p.returncode != 0 or not cuts:
         raise vlib.ToolError("proxy cuts failed rc=%s: %s" % (p.returncode, p.stderr[-1500:]))
